@@ -5,32 +5,28 @@
    the payload types are listed once, every rtpmap/fmtp/rtcp-fb line belongs to
    a listed payload type, every RTX entry's apt names a listed payload type,
    extmap ids are distinct and within 1..14, and each URI appears once.
-   The faithful model violates it in four ways (c10_full_refuted_*, each
+   The faithful model violates it in three ways (c10_full_refuted_*, each
    replayed on the real PeerConnection in the harness corpus); the clauses are
-   proved separately under the narrowest guards found. *)
+   proved separately, the RTX and attribute clauses for all inputs, the others
+   under the narrowest guards found. *)
 From Coq Require Import List ZArith NArith String Bool.
 Import ListNotations.
-From Verif Require Import Common.Base Model.Fmtp Model.Codec Model.HeaderExt Model.Section
-     Proofs.Codec Proofs.Section Proofs.ExtNeg.
+From Verif Require Import Common.Base Model.Fmtp Model.Codec Model.HeaderExt Model.Section Model.CodecAssoc
+     Proofs.Codec Proofs.Section Proofs.ExtNeg Proofs.CodecHist Proofs.CodecPrefs Proofs.CodecAssoc.
 From Coq Require Import Lia.
 Open Scope string_scope.
 
-(* after filterUnattachedRTX every RTX entry's apt names a payload type of the
-   filtered list -- for all lists in which no RTX entry's apt names another RTX
-   entry *)
-Theorem c10_rtx_apt_listed_partial : forall l c,
-  no_rtx_chain l ->
+(* after filterUnattachedRTX every RTX entry's apt names the payload type of a
+   kept entry, and that entry is not an RTX entry: for all lists.  (Before the
+   repair "filterUnattachedRTX does not accept an RTX entry as the primary of
+   another" this held only for lists without RTX-to-RTX references:
+   [rtx 97 apt=99; rtx 98 apt=97] kept rtx 98.) *)
+Theorem c10_rtx_apt_listed : forall l c,
   In c (filter_unattached_rtx l) -> is_rtx c = true ->
-  exists a p, apt_of c = Some a /\ parse_atoi_pt a = Some p /\ has_pt p (filter_unattached_rtx l).
+  exists a p q, apt_of c = Some a /\ parse_atoi_pt a = Some p /\
+    In q (filter_unattached_rtx l) /\ c_pt q = p /\ is_rtx q = false.
 Proof. exact filter_rtx_apt_listed. Qed.
-Print Assumptions c10_rtx_apt_listed_partial.
-
-(* without the guard it fails: [rtx 97 apt=99; rtx 98 apt=97] keeps rtx 98 *)
-Theorem c10_rtx_apt_listed_refuted :
-  exists l c, In c (filter_unattached_rtx l) /\ is_rtx c = true /\
-    forall a p, apt_of c = Some a -> parse_atoi_pt a = Some p -> ~ has_pt p (filter_unattached_rtx l).
-Proof. exact filter_rtx_apt_refuted. Qed.
-Print Assumptions c10_rtx_apt_listed_refuted.
+Print Assumptions c10_rtx_apt_listed.
 
 (* the filter only removes entries, and never a non-RTX one *)
 Theorem c10_filter_sound : forall l x,
@@ -74,6 +70,40 @@ Theorem c10_engine_lists_pt_unique : forall l c,
 Proof. exact add_codec_nodup. Qed.
 Print Assumptions c10_engine_lists_pt_unique.
 
+(* a transceiver created from the remote description: the preference list
+   setCodecPreferencesFromRemoteDescription builds never carries a payload type
+   twice (for every engine list with distinct payload types, every remote
+   section) -- as repaired; the loop used to remove the last fmtp-equivalent
+   engine codec instead of the matched one, and an offer listing one codec
+   under two payload types was answered "123 123" *)
+Theorem c10_pt_unique_from_remote_prefs : forall engine_codecs remote,
+  NoDup (map c_pt engine_codecs) ->
+  NoDup (map c_pt (set_prefs_from_remote engine_codecs remote)).
+Proof. exact set_prefs_from_remote_nodup. Qed.
+Print Assumptions c10_pt_unique_from_remote_prefs.
+
+(* ... so its section lists each payload type once (engine payload types non-zero) *)
+Theorem c10_pt_unique_from_remote : forall engine_codecs remote,
+  NoDup (map c_pt engine_codecs) -> (forall c, In c engine_codecs -> c_pt c <> 0%N) ->
+  NoDup (map c_pt (get_codecs engine_codecs (set_prefs_from_remote engine_codecs remote))).
+Proof. exact get_codecs_from_remote_nodup. Qed.
+Print Assumptions c10_pt_unique_from_remote.
+
+(* over histories, with the transceiver matching inside the step
+   (Model/CodecAssoc.v): for every registration, every history of local
+   additions and answered offers and every further offer, when an offered
+   section with mid m is of the same kind K m in every offer, no offered codec
+   has payload type 0 and SetCodecPreferences is given lists with distinct
+   non-zero payload types (or none), every section of the answer lists each
+   payload type once -- local transceivers and transceivers created from a
+   remote description, in this or an earlier exchange, alike *)
+Theorem c10_hist_pt_unique_partial : forall K video audio multi x os offer s' l,
+  Forall (mop_kp K) os -> mop_kp K (MExchange offer) ->
+  exchange (run_mops (new_mpc (new_engine video audio multi) x) os) offer = (s', Ok l) ->
+  Forall (fun sec => NoDup (sec_formats sec)) l.
+Proof. exact history_answer_pts. Qed.
+Print Assumptions c10_hist_pt_unique_partial.
+
 (* negotiated branch, under a guard on the remote description: when every
    extmap id it uses lies within 1..14 and a URI is never offered under two
    different ids (across all its sections), then for every registration
@@ -87,6 +117,21 @@ Theorem c10_negotiated_ext_ids_partial : forall regs secs e e' x' r k dirs rem,
   NoDup (map fst l) /\ (forall iu, In iu l -> (1 <= fst iu <= 14)%Z) /\ NoDup (map snd l).
 Proof. exact negotiated_ext_ids. Qed.
 Print Assumptions c10_negotiated_ext_ids_partial.
+
+(* the same over histories, with the transceiver matching inside the step
+   (Model/CodecAssoc.v): for every registration sequence, every history of
+   local additions and answered offers and every further offer, when an offered
+   section with mid m is of the same kind K m in every offer and the extmap
+   lines of all the offers (pairs) use ids within 1..14 and pair ids and URIs
+   one-to-one, every section of the answer has distinct extmap ids within 1..14
+   and each URI once *)
+Theorem c10_hist_answer_ext_ids_partial : forall K pairs video audio multi regs os offer s' l,
+  remote_exts_regular pairs ->
+  Forall (mop_kinds K pairs) os -> mop_kinds K pairs (MExchange offer) ->
+  exchange (run_mops (new_mpc (new_engine video audio multi) (registered regs)) os) offer = (s', Ok l) ->
+  Forall exts_ok l.
+Proof. exact history_answer_exts. Qed.
+Print Assumptions c10_hist_answer_ext_ids_partial.
 
 Example c10_remote_exts_regular_nontrivial :
   remote_exts_regular (all_pairs [mkRsec KVideo [] [(3%Z, w_mid); (5%Z, "urn:x:a")]; mkRsec KAudio [] [(3%Z, w_mid)]]).
@@ -118,12 +163,6 @@ Theorem c10_full_refuted_dup_pt : exists l, w_dup_pt = Ok l /\ forallb section_o
 Proof. exact w_dup_pt_fails. Qed.
 Print Assumptions c10_full_refuted_dup_pt.
 
-(* an RTX entry whose apt names a removed RTX, in a first offer *)
-Theorem c10_full_refuted_rtx_chain : exists l, w_chain = Ok l /\ forallb section_ok l = false /\
-  existsb (fun s => negb (rtx_apts_listed (l_codecs s))) l = true.
-Proof. exact w_chain_fails. Qed.
-Print Assumptions c10_full_refuted_rtx_chain.
-
 (* section_ok is satisfiable on a non-trivial answer (remapped payload types,
    RTX with its primary, a negotiated extension) *)
 Example c10_section_ok_nontrivial : exists l,
@@ -131,11 +170,44 @@ Example c10_section_ok_nontrivial : exists l,
             [(mkRsec KVideo [set_pt w_vp8 100; mkCodec "video/rtx" 90000 0 "apt=100" [] 101] [(3%Z, w_mid)], None)]
   = Ok l /\ forallb section_ok l = true /\ map sec_formats l = [[100%N; 101%N]].
 Proof. exact w_good. Qed.
-Example c10_no_rtx_chain_nontrivial :
-  no_rtx_chain [w_vp8; mkCodec "video/rtx" 90000 0 "apt=96" [] 97; mkCodec "video/rtx" 90000 0 "apt=55" [] 99].
+(* the former witness of the RTX clause: both RTX entries are dropped *)
+Example c10_rtx_chain_repaired : exists l, w_chain = Ok l /\ forallb section_ok l = true /\
+  map sec_formats l = [[96%N]].
+Proof. exact w_chain_ok. Qed.
+
+(* the history premises on non-trivial values: telephone-event offered under two
+   payload types, answered by a transceiver created from the offer; re-offered
+   with a second audio section that a local recvonly transceiver takes *)
+Definition ex10_te (pt : N) : codec := mkCodec "audio/telephone-event" 8000 0 "" [] pt.
+Definition ex10_os : list mop :=
+  [ MExchange [mkOsec KAudio AD.Sendrecv [ex10_te 123; ex10_te 124] [(3%Z, w_mid)]];
+    MAdd KAudio AD.Recvonly [] ].
+Definition ex10_offer : list osec :=
+  [ mkOsec KAudio AD.Sendrecv [ex10_te 123; ex10_te 124] [(3%Z, w_mid)];
+    mkOsec KAudio AD.Sendonly [ex10_te 123; ex10_te 124] [(3%Z, w_mid)] ].
+
+Example c10_example_history :
+  Forall (mop_kp (fun _ => KAudio)) ex10_os /\ mop_kp (fun _ => KAudio) (MExchange ex10_offer) /\
+  Forall (mop_kinds (fun _ => KAudio) [(3%Z, w_mid)]) ex10_os /\
+  mop_kinds (fun _ => KAudio) [(3%Z, w_mid)] (MExchange ex10_offer) /\
+  match exchange (run_mops (new_mpc (new_engine [] [ex10_te 101] true)
+                                    (registered [(w_mid, KAudio, [])])) ex10_os) ex10_offer with
+  | (_, Ok l) => map sec_formats l = [[124%N; 123%N]; [123%N; 124%N]] /\
+                 map l_exts l = [[(3%Z, w_mid)]; [(3%Z, w_mid)]]
+  | _ => False
+  end.
 Proof.
-  intros c a p q Hc Hr Ha Hp Hq Hpt.
-  destruct Hc as [<-|[<-|[<-|[]]]]; try discriminate;
-    vm_compute in Ha; injection Ha as <-; vm_compute in Hp; injection Hp as <-;
-    destruct Hq as [<-|[<-|[<-|[]]]]; try (vm_compute in Hpt; discriminate); auto.
+  assert (Hk1 : offer_kinds (fun _ => KAudio) [mkOsec KAudio AD.Sendrecv [ex10_te 123; ex10_te 124] [(3%Z, w_mid)]]).
+  { intros m o H _. destruct m as [|m]; cbn in H; [inversion H; reflexivity|destruct m; discriminate]. }
+  assert (Hk2 : offer_kinds (fun _ => KAudio) ex10_offer).
+  { intros m o H _. destruct m as [|[|m]]; cbn in H; try (inversion H; reflexivity). destruct m; discriminate. }
+  assert (Hp : forall offer, (forall o, In o offer -> os_codecs o = [ex10_te 123; ex10_te 124]) -> offer_pts offer).
+  { intros offer Ho o c Hin Hc. rewrite (Ho o Hin) in Hc. destruct Hc as [<-|[<-|[]]]; discriminate. }
+  split; [|split; [|split; [|split]]].
+  - constructor; [split; [exact Hk1|apply Hp; intros o [<-|[]]; reflexivity]|].
+    constructor; [apply pts_ok_nil|constructor].
+  - split; [exact Hk2|apply Hp; intros o [<-|[<-|[]]]; reflexivity].
+  - constructor; [split; [exact Hk1|intros p Hin; exact Hin]|]. constructor; [exact I|constructor].
+  - split; [exact Hk2|]. intros p Hin. cbn in Hin. destruct Hin as [<-|[<-|[]]]; now left.
+  - vm_compute. split; reflexivity.
 Qed.
